@@ -157,7 +157,10 @@ def staking(tier, seed):
     model = vlib.tlc_generate("MCStaking", "gen/MCStakingGen.cfg", "W2u", "staking")
     jumps = vlib.tlc_generate("MCStaking", "gen/MCStakingGen_skip.cfg", "W2u", "staking")
     jumps = [dict(s, id="J" + s["id"]) for s in jumps]
+    # candidates declared and edited, keys changed, halts and version updates voted for the third block
+    gov = [dict(s, id="G" + s["id"]) for s in vlib.tlc_generate("MCStaking", "gen/MCStakingGen_gov.cfg", "W2u", "staking")]
     return (sample(rnd, model, {"quick": 150, "thorough": 4000}[tier]) + sample(rnd, jumps, {"quick": 50, "thorough": 1500}[tier])
+            + sample(rnd, gov, {"quick": 80, "thorough": 2000}[tier])
             + gens_staking.targeted() + gens_staking.staking(rnd, {"quick": 60, "thorough": 1500}[tier])
             + gens_staking.crowd(rnd, {"quick": 6, "thorough": 60}[tier]) + regress("staking"))
 
